@@ -35,7 +35,9 @@ SliderPieces == {B, R, Q}
 (* (coarse) ; own king square x enemy slider square x slider type (fine).  *)
 (***************************************************************************)
 EpCoarse == {<<side, vf, cl, cr>> \in {0, 1} \X (0..7) \X Bools \X Bools : cl + cr >= 1}
-EpFine(x) == Sq \X Sq \X SliderPieces
+\* (the enemy man is usually a slider - exposure - but may be a knight or pawn: the mover is then possibly
+\*  in check by a NON-slider while an e.p. capture is available)
+EpFine(x) == Sq \X Sq \X {N, B, R, Q, P}
 EpBuild(x, y) ==
   LET side == x[1]  vf == x[2]  opp == Other(side)
       r == EpSrcRank(side)
@@ -45,6 +47,7 @@ EpBuild(x, y) ==
       c2 == IF x[4] = 1 /\ vf < 7 THEN Place(c1, MkSq(vf + 1, r), MkCell(side, P)) ELSE c1
       ksq == y[1]  esq == y[2]
   IN IF c2[ksq] # 0 \/ c2[esq] # 0 \/ ksq = esq \/ ksq = Shift(victim, 0, Fwd(side)) \/ esq = Shift(victim, 0, Fwd(side))
+        \/ (y[3] = P /\ RankOf(esq) \in {0, 7})
      THEN MkPos(EmptyCells, side, 0, -1, 0, 1)       \* invalid: filtered
      ELSE Park(Place(Place(c2, ksq, MkCell(side, K)), esq, MkCell(opp, y[3])), opp, side, 0, victim, 0, 1)
 
@@ -275,6 +278,123 @@ EpChkxBuild(x, y) ==
   ELSE MkPos(EmptyCells, 0, 0, -1, 0, 1)
 
 (***************************************************************************)
+(* F_PINMATE: the side to move is in check, has NO legal move, and one of  *)
+(* its own men (not the king) pseudo-legally attacks a checker - it is     *)
+(* pinned.  "The checker can simply be taken" is false exactly here.       *)
+(*   cornered king boxed in by two own pawns, an enemy knight giving       *)
+(*   check, an own defender and an enemy slider anywhere (filtered).       *)
+(***************************************************************************)
+PinMateCoarse == {<<corner, side, dt>> \in {0, 7, 56, 63} \X {0, 1} \X {N, B, R, Q} : TRUE}
+PinMateFine(x) ==
+  LET k == x[1] IN
+  {<<n, ds, es, et>> \in KnightSet[k] \X Sq \X Sq \X SliderPieces : ds # es /\ ds # n /\ es # n /\ ds # k /\ es # k}
+PinMateBuild(x, y) ==
+  LET k == x[1]  side == x[2]  opp == Other(side)
+      df == IF FileOf(k) = 0 THEN 1 ELSE -1
+      dr == IF RankOf(k) = 0 THEN 1 ELSE -1
+      \* the two squares "in front" of the cornered king along the board edge opposite to its home side
+      p1 == Shift(k, 0, dr)  p2 == Shift(k, df, dr)
+      okPawn == RankOf(p1) \notin {0, 7}
+      c0 == Place(Place(Place(EmptyCells, k, MkCell(side, K)), p1, MkCell(side, IF okPawn THEN P ELSE N)),
+                  p2, MkCell(side, IF okPawn THEN P ELSE N))
+  IN IF y[1] \in {p1, p2} \/ y[2] \in {p1, p2} \/ y[3] \in {p1, p2}
+     THEN MkPos(EmptyCells, side, 0, -1, 0, 1)
+     ELSE LET c1 == Place(Place(Place(c0, y[1], MkCell(opp, N)), y[2], MkCell(side, x[3])), y[3], MkCell(opp, y[4]))
+              pos == Park(c1, opp, side, 0, -1, 0, 1)
+          IN IF IsValid(pos) /\ InCheck(pos) /\ Legal(pos) = {}
+                /\ (\E m \in PseudoLegal(pos) : m[4] \in Checkers(pos) /\ PieceOf(m[2]) # K)
+             THEN pos ELSE MkPos(EmptyCells, side, 0, -1, 0, 1)
+
+(***************************************************************************)
+(* F_DBLCHK: a move that gives DOUBLE check (by discovery), mate or not:   *)
+(* back-rank king behind a pawn shield, an enemy slider on the rank with   *)
+(* an enemy knight / bishop between them that can move away with check.    *)
+(* The emitted position is the one BEFORE that move (the mover to play).   *)
+(***************************************************************************)
+DblCoarse == {<<ks, side, shield>> \in {1, 2, 5, 6, 57, 58, 61, 62} \X {0, 1} \X {0, 1} : TRUE}
+DblFine(x) ==
+  LET k == x[1]  rank == {q \in Sq : RankOf(q) = RankOf(k) /\ q # k} IN
+  {<<ss, st, bs, bt>> \in rank \X {R, Q} \X rank \X {N, B} : bs \in Between(ss, k)}
+DblBuild(x, y) ==
+  LET k == x[1]  victim == Other(x[2])  mover == x[2]
+      dr == IF RankOf(k) = 0 THEN 1 ELSE -1
+      sh == {Shift(k, -1, dr), Shift(k, 0, dr), Shift(k, 1, dr)} \ {-1}
+      RECURSIVE PutAll(_, _)
+      PutAll(c, S) == IF S = {} THEN c ELSE LET q == CHOOSE q \in S : TRUE IN PutAll(Place(c, q, MkCell(victim, P)), S \ {q})
+      c0 == Place(EmptyCells, k, MkCell(victim, K))
+      c1 == IF x[3] = 1 THEN PutAll(c0, sh) ELSE c0
+      c2 == Place(Place(c1, y[1], MkCell(mover, y[2])), y[3], MkCell(mover, y[4]))
+      pos == Park(c2, mover, mover, 0, -1, 0, 1)
+  IN IF IsValid(pos) /\ (\E m \in Legal(pos) : m[3] = y[3] /\ Cardinality(Checkers(ApplyMove(pos, m))) >= 2)
+     THEN pos ELSE MkPos(EmptyCells, mover, 0, -1, 0, 1)
+
+(***************************************************************************)
+(* F_DBLPIN: two own men pinned at once on two different rays of the king. *)
+(***************************************************************************)
+DirSeq == <<<<0, 1>>, <<0, -1>>, <<1, 0>>, <<-1, 0>>, <<1, 1>>, <<1, -1>>, <<-1, 1>>, <<-1, -1>>>>
+DblPinCoarse == {<<k, a, b>> \in Sq \X (1..8) \X (1..8) : a < b /\ RayLen(k, DirSeq[a]) >= 2 /\ RayLen(k, DirSeq[b]) >= 2}
+DblPinFine(x) ==
+  {<<i1, j1, t1, i2, j2, t2, side>> \in (1..3) \X (2..5) \X {N, B, R, Q} \X (1..3) \X (2..5) \X {N, B, R, Q} \X {0, 1} :
+      i1 < j1 /\ j1 <= RayLen(x[1], DirSeq[x[2]]) /\ i2 < j2 /\ j2 <= RayLen(x[1], DirSeq[x[3]])}
+DblPinBuild(x, y) ==
+  LET k == x[1]  r1 == RayTbl[k][DirSeq[x[2]]]  r2 == RayTbl[k][DirSeq[x[3]]]
+      side == y[7]  opp == Other(side)
+      pinner(a) == IF a <= 4 THEN R ELSE B
+      c == Place(Place(Place(Place(Place(EmptyCells, k, MkCell(side, K)),
+                 r1[y[1]], MkCell(side, y[3])), r1[y[2]], MkCell(opp, pinner(x[2]))),
+                 r2[y[4]], MkCell(side, y[6])), r2[y[5]], MkCell(opp, IF y[4] = 1 THEN Q ELSE pinner(x[3])))
+  IN Park(c, opp, side, 0, -1, 0, 1)
+
+(***************************************************************************)
+(* F_ONLYDBL: the ONLY legal moves are double pawn steps (interposition).  *)
+(***************************************************************************)
+OnlyDblCoarse == {<<side, kf>> \in {0, 1} \X (0..7) : TRUE}
+OnlyDblFine(x) == {<<pf, cf, gf>> \in (0..7) \X (0..7) \X (0..7) : pf # x[2] /\ cf # x[2] /\ cf # pf}
+OnlyDblBuild(x, y) ==
+  LET side == x[1]  opp == Other(side)
+      r4 == DoubleDstRank(side)                 \* the rank the double step lands on = the king's rank
+      rs == PawnStartRank(side)
+      k == MkSq(x[2], r4)
+      c == Place(Place(Place(Place(Place(EmptyCells, k, MkCell(side, K)),
+                 MkSq(y[2], r4), MkCell(opp, R)),                                  \* the checker on the rank
+                 MkSq(y[1], rs), MkCell(side, P)),                                 \* the pawn that may interpose
+                 MkSq(y[3], r4 - 1), MkCell(opp, R)), MkSq(y[3], r4 + 1), MkCell(opp, R))   \* guards of both neighbour ranks
+      pos == Park(c, opp, side, 0, -1, 0, 1)
+  IN IF IsValid(pos) /\ Legal(pos) # {} /\ (\A m \in Legal(pos) : m[1] = KDouble) THEN pos
+     ELSE MkPos(EmptyCells, side, 0, -1, 0, 1)
+
+(***************************************************************************)
+(* F_PROMOEP: a promotion is available while an e.p. mark is pending.      *)
+(***************************************************************************)
+PromoEpCoarse == {<<side, f>> \in {0, 1} \X (0..7) : TRUE}
+PromoEpFine(x) == {<<vf, left, right>> \in (0..7) \X {0, 1} \X {0, 1} : TRUE}
+PromoEpBuild(x, y) ==
+  LET side == x[1]  opp == Other(side)  f == x[2]
+      src == MkSq(f, PromoSrcRank(side))  dr == PromoDstRank(side)
+      victim == MkSq(y[1], EpSrcRank(side))
+      c0 == Place(Place(EmptyCells, src, MkCell(side, P)), victim, MkCell(opp, P))
+      c1 == IF y[2] = 1 /\ f > 0 THEN Place(c0, MkSq(f - 1, dr), MkCell(opp, N)) ELSE c0
+      c2 == IF y[3] = 1 /\ f < 7 THEN Place(c1, MkSq(f + 1, dr), MkCell(opp, R)) ELSE c1
+      p1 == Park(c2, side, side, 0, victim, 0, 1)
+  IN Park(p1.cells, opp, side, 0, victim, 0, 1)
+
+(***************************************************************************)
+(* F_CASTLEEP: castling is available while an e.p. mark is pending (the    *)
+(* opponent has just made a double step).                                  *)
+(***************************************************************************)
+CastleEpCoarse == {<<side, ks, qs>> \in {0, 1} \X Bools \X Bools : ks + qs >= 1}
+CastleEpFine(x) == {<<vf, cap>> \in (0..7) \X {0, 1} : TRUE}
+CastleEpBuild(x, y) ==
+  LET side == x[1]  opp == Other(side)  r == HomeRank(side)
+      c0 == Place(Place(Place(EmptyCells, MkSq(4, r), MkCell(side, K)), MkSq(0, r), MkCell(side, R)), MkSq(7, r), MkCell(side, R))
+      cr == RightsOfSet((IF x[2] = 1 THEN {<<side, SideK>>} ELSE {}) \cup (IF x[3] = 1 THEN {<<side, SideQ>>} ELSE {}))
+      victim == MkSq(y[1], EpSrcRank(side))
+      c1 == Place(c0, victim, MkCell(opp, P))
+      nb == IF y[1] > 0 THEN MkSq(y[1] - 1, EpSrcRank(side)) ELSE MkSq(1, EpSrcRank(side))
+      c2 == IF y[2] = 1 THEN Place(c1, nb, MkCell(side, P)) ELSE c1
+  IN Park(c2, opp, side, cr, victim, 0, 1)
+
+(***************************************************************************)
 (* F_STALEMIN: a cornered king with NO legal move (stalemate or mate)      *)
 (* facing king + one minor piece or queen: forced outcomes that coincide   *)
 (* with insufficient material or with clock thresholds.                    *)
@@ -370,17 +490,17 @@ RawBuild(x, y) ==
                      IF back = -1 \/ c[back] \in {MkCell(0, K), MkCell(1, K)} THEN sk
                      ELSE [sk EXCEPT !.cells = Place(c, back, y[2])]
 
-FamilyNames == {"EP", "EPEDGE", "ONLYEP", "PIN", "CASTLE", "PROMO", "MAT", "CHK", "AMBIG", "RAW", "MINOR", "MULTICHK", "ROOKCAP", "EPCHK", "STALEMIN", "EPX", "EPCHKX"}
+FamilyNames == {"EP", "EPEDGE", "ONLYEP", "PIN", "CASTLE", "PROMO", "MAT", "CHK", "AMBIG", "RAW", "MINOR", "MULTICHK", "ROOKCAP", "EPCHK", "STALEMIN", "EPX", "EPCHKX", "PINMATE", "DBLCHK", "DBLPIN", "ONLYDBL", "PROMOEP", "CASTLEEP"}
 Coarse(f) ==
   CASE f = "EP" -> EpCoarse [] f = "EPEDGE" -> EdgeCoarse [] f = "ONLYEP" -> OnlyEpCoarse
     [] f = "PIN" -> PinCoarse [] f = "CASTLE" -> CastleCoarse [] f = "PROMO" -> PromoCoarse
-    [] f = "MAT" -> MatCoarse [] f = "CHK" -> ChkCoarse [] f = "AMBIG" -> AmbigCoarse [] f = "RAW" -> RawCoarse [] f = "MINOR" -> MinorCoarse [] f = "MULTICHK" -> MultiCoarse [] f = "ROOKCAP" -> RookCapCoarse [] f = "EPCHK" -> EpChkCoarse [] f = "STALEMIN" -> StaleCoarse [] f = "EPX" -> EpCoarse [] f = "EPCHKX" -> EpChkCoarse
+    [] f = "MAT" -> MatCoarse [] f = "CHK" -> ChkCoarse [] f = "AMBIG" -> AmbigCoarse [] f = "RAW" -> RawCoarse [] f = "MINOR" -> MinorCoarse [] f = "MULTICHK" -> MultiCoarse [] f = "ROOKCAP" -> RookCapCoarse [] f = "EPCHK" -> EpChkCoarse [] f = "STALEMIN" -> StaleCoarse [] f = "EPX" -> EpCoarse [] f = "EPCHKX" -> EpChkCoarse [] f = "PINMATE" -> PinMateCoarse [] f = "DBLCHK" -> DblCoarse [] f = "DBLPIN" -> DblPinCoarse [] f = "ONLYDBL" -> OnlyDblCoarse [] f = "PROMOEP" -> PromoEpCoarse [] f = "CASTLEEP" -> CastleEpCoarse
 Fine(f, x) ==
   CASE f = "EP" -> EpFine(x) [] f = "EPEDGE" -> EdgeFine(x) [] f = "ONLYEP" -> OnlyEpFine(x)
     [] f = "PIN" -> PinFine(x) [] f = "CASTLE" -> CastleFine(x) [] f = "PROMO" -> PromoFine(x)
-    [] f = "MAT" -> MatFine(x) [] f = "CHK" -> ChkFine(x) [] f = "AMBIG" -> AmbigFine(x) [] f = "RAW" -> RawFine(x) [] f = "MINOR" -> MinorFine(x) [] f = "MULTICHK" -> MultiFine(x) [] f = "ROOKCAP" -> RookCapFine(x) [] f = "EPCHK" -> EpChkFine(x) [] f = "STALEMIN" -> StaleFine(x) [] f = "EPX" -> EpFine(x) [] f = "EPCHKX" -> EpChkFine(x)
+    [] f = "MAT" -> MatFine(x) [] f = "CHK" -> ChkFine(x) [] f = "AMBIG" -> AmbigFine(x) [] f = "RAW" -> RawFine(x) [] f = "MINOR" -> MinorFine(x) [] f = "MULTICHK" -> MultiFine(x) [] f = "ROOKCAP" -> RookCapFine(x) [] f = "EPCHK" -> EpChkFine(x) [] f = "STALEMIN" -> StaleFine(x) [] f = "EPX" -> EpFine(x) [] f = "EPCHKX" -> EpChkFine(x) [] f = "PINMATE" -> PinMateFine(x) [] f = "DBLCHK" -> DblFine(x) [] f = "DBLPIN" -> DblPinFine(x) [] f = "ONLYDBL" -> OnlyDblFine(x) [] f = "PROMOEP" -> PromoEpFine(x) [] f = "CASTLEEP" -> CastleEpFine(x)
 Build(f, x, y) ==
   CASE f = "EP" -> EpBuild(x, y) [] f = "EPEDGE" -> EdgeBuild(x, y) [] f = "ONLYEP" -> OnlyEpBuild(x, y)
     [] f = "PIN" -> PinBuild(x, y) [] f = "CASTLE" -> CastleBuild(x, y) [] f = "PROMO" -> PromoBuild(x, y)
-    [] f = "MAT" -> MatBuild(x, y) [] f = "CHK" -> ChkBuild(x, y) [] f = "AMBIG" -> AmbigBuild(x, y) [] f = "RAW" -> RawBuild(x, y) [] f = "MINOR" -> MinorBuild(x, y) [] f = "MULTICHK" -> MultiBuild(x, y) [] f = "ROOKCAP" -> RookCapBuild(x, y) [] f = "EPCHK" -> EpChkBuild(x, y) [] f = "STALEMIN" -> StaleBuild(x, y) [] f = "EPX" -> EpxBuild(x, y) [] f = "EPCHKX" -> EpChkxBuild(x, y)
+    [] f = "MAT" -> MatBuild(x, y) [] f = "CHK" -> ChkBuild(x, y) [] f = "AMBIG" -> AmbigBuild(x, y) [] f = "RAW" -> RawBuild(x, y) [] f = "MINOR" -> MinorBuild(x, y) [] f = "MULTICHK" -> MultiBuild(x, y) [] f = "ROOKCAP" -> RookCapBuild(x, y) [] f = "EPCHK" -> EpChkBuild(x, y) [] f = "STALEMIN" -> StaleBuild(x, y) [] f = "EPX" -> EpxBuild(x, y) [] f = "EPCHKX" -> EpChkxBuild(x, y) [] f = "PINMATE" -> PinMateBuild(x, y) [] f = "DBLCHK" -> DblBuild(x, y) [] f = "DBLPIN" -> DblPinBuild(x, y) [] f = "ONLYDBL" -> OnlyDblBuild(x, y) [] f = "PROMOEP" -> PromoEpBuild(x, y) [] f = "CASTLEEP" -> CastleEpBuild(x, y)
 =============================================================================
